@@ -41,6 +41,22 @@ Theorem query_spec : forall {V} (d : kdb) (q : iquery V) (entries : list entry),
   fetch_collection d q = FOk (spec_query q entries).
 Proof. intros V. exact query_spec_pf. Qed.
 
+(* BadgerDB iterates over the WHOLE key space: the database also holds the raw
+   value keys (and whatever else the application stores).  Any sorted key space
+   d' that contains the index's keys, and whose other keys do not start with
+   "<index name>:", gives the same answer - forward and reverse, in particular
+   when a foreign key is exactly the prefix successor the reverse scan seeks to *)
+Theorem query_with_foreign_keys : forall {V} (idxs : list (index V)) s d d' (q : iquery V),
+  names_ok idxs -> index_state idxs s d -> In (qidx q) idxs ->
+  sortedb d' = true ->
+  (forall k, In k d -> In k d') ->
+  (forall k, In k d' -> ~ In k d -> has_prefix (iname (qidx q) ++ [colon]) k = false) ->
+  entries_nul_free (entries_of (qidx q) s) = true ->
+  (qrev q = true -> db_bytes_ok d' = true) ->
+  ((qlimit q < 0)%Z -> (Z.of_nat (length d') < max_int)%Z) ->
+  fetch_collection d' q = FOk (spec_query q (entries_of (qidx q) s)).
+Proof. intros V. exact query_with_foreign_keys_pf. Qed.
+
 (* both together: a query after any flushed history *)
 Theorem query_after_history : forall {V} (idxs : list (index V)) ncb ms st d es (q : iquery V),
   names_ok idxs -> muts_ids_nul_free ms = true -> run_history idxs ncb ms = (st, d, es) ->
@@ -105,6 +121,16 @@ Example query_nonvacuous :
   fetch_collection d (IQ ex_ix1 [97; 98; 99] None 0%Z (-1)%Z false) = FOk [] /\
   length d = 6%nat.
 Proof. vm_compute. repeat split. Qed.
+
+(* an unprefixed store holding a value with id "k;" : the raw value key "k;" is
+   exactly prefix_successor("k:"), the key the reverse scan seeks to and steps over *)
+Example successor_neighbour_nonvacuous :
+  let '(st, d, _) := run_history [ex_ix1; ex_ix2] 0 ex_ms in
+  let d' := db_set [107; 59] d in
+  psucc (get_query [107] []) = Some [107; 59] /\ In [107; 59] d' /\
+  fetch_collection d' (IQ ex_ix1 [] None 0%Z (-1)%Z true) = fetch_collection d (IQ ex_ix1 [] None 0%Z (-1)%Z true) /\
+  fetch_collection d' (IQ ex_ix1 [] None 0%Z 2%Z true) = FOk [[50]; [51]].
+Proof. vm_compute. repeat split. do 4 right. left. reflexivity. Qed.
 
 Example flush_nonvacuous : exists s,
   tq_run (tq_init 256) [LDo (TIndex 0); LPop; LDo (TSentinel 0); LFinish; LPop; LFinish; LFlushReturn 0] = Some s /\
